@@ -25,7 +25,7 @@ VERIF = os.path.dirname(os.path.dirname(os.path.abspath(__file__)))
 REPO = os.path.abspath(os.environ.get('VERIF_REPO', '/repo'))
 DEPS = os.path.join(VERIF, '.deps')
 
-CASE_CPU_LIMIT = 300  # CPU seconds for ONE case that normally takes milliseconds
+CASE_CPU_LIMIT = 600  # CPU seconds for ONE case that normally takes milliseconds (hit => exit 2, inconclusive)
 
 
 def bootstrap():
@@ -159,13 +159,13 @@ class Ctx:
             self.add_violation(v)
             return False
         except Hang:
-            self.violations.append({'site': 'nontermination', 'case': self._current,
+            self.violations.append({'site': 'nontermination', 'case': self.current_case(),
                                     'message': f'no result after {CASE_CPU_LIMIT} CPU seconds'})
             return False
         except Exception as e:  # noqa: BLE001
             if from_library(e):
                 self.violations.append({'site': 'raises:' + type(e).__name__ + '@' + innermost(e),
-                                        'case': self._current,
+                                        'case': self.current_case(),
                                         'message': ''.join(traceback.format_exception_only(type(e), e)).strip()})
                 return False
             raise
@@ -192,7 +192,7 @@ class Ctx:
                 raise
             except Exception as e:  # noqa: BLE001
                 if from_library(e):
-                    v = Violation('raises:' + type(e).__name__ + '@' + innermost(e), ctx._current,
+                    v = Violation('raises:' + type(e).__name__ + '@' + innermost(e), ctx.current_case(),
                                   ''.join(traceback.format_exception_only(type(e), e)).strip())
                     last['v'] = v
                     raise v from e
@@ -211,10 +211,14 @@ class Ctx:
             self.add_violation(last['v'])
             return False
         except Hang:
-            self.violations.append({'site': 'nontermination', 'case': self._current,
+            self.violations.append({'site': 'nontermination', 'case': self.current_case(),
                                     'message': f'no result after {CASE_CPU_LIMIT} CPU seconds'})
             return False
         return True
+
+    def current_case(self):
+        cur = self._current
+        return cur() if callable(cur) else cur
 
     def result(self):
         return {'evaluations': self.evaluations,
@@ -430,6 +434,11 @@ def main(argv=None):
             violations.extend(res['violations'])
 
     # 3. classify violations: one line per site, smallest case first
+    #    (a CPU-budget hit is reported, its case is saved, but it is 'inconclusive', never a violation)
+    for v in [v for v in violations if v['site'] == 'nontermination']:
+        path = write_replay(prop, v, tier, seed)
+        errors.append(f'INCONCLUSIVE: a single case used more than {CASE_CPU_LIMIT} CPU seconds; case saved as {path}')
+    violations = [v for v in violations if v['site'] != 'nontermination']
     by_site = {}
     for v in violations:
         key = v['site']
